@@ -16,6 +16,29 @@ def gen(ctx, mode, n, seed, judge, big=False, fulldelta=False):
     return [json.loads(x) for x in open(out)]
 
 
+def gen_par(ctx, mode, n, seed, judge, parts, **kw):
+    """the same as gen, split over `parts` generator processes (seeds seed, seed+7919, ...): the harness generates single-threaded"""
+    from concurrent.futures import ThreadPoolExecutor
+    ctx.build()
+    per = (n + parts - 1) // parts
+
+    def one(i):
+        vh = ctx.build()
+        out = os.path.join(ctx.sub("smfgen_%s_%d" % (mode, i)), mode + ".ndjson")
+        cmd = [vh, "smf-gen", "-mode", mode, "-n", str(per), "-seed", str(seed + 7919 * i), "-judge", judge, "-out", out]
+        if kw.get("big"):
+            cmd.append("-big")
+        if kw.get("fulldelta"):
+            cmd.append("-fulldelta")
+        ctx.run(cmd, timeout=3600)
+        recs = [json.loads(x) for x in open(out)]
+        for r in recs:
+            r["id"] += 100000 * i
+        return recs
+    with ThreadPoolExecutor(parts) as ex:
+        return [r for part in ex.map(one, range(parts)) for r in part]
+
+
 def rerun(ctx, rec, full=False):
     vh = ctx.build()
     d = ctx.sub("replay")
